@@ -82,6 +82,18 @@ pub fn run(mut run: Run) -> i32 {
     run.stage("pairs", n * n, |idx, acc| {
         check_pair(acc, idx, &shapes[idx / n], &shapes[idx % n], "");
     });
+    // images under integer affine maps (exact distance recomputed on the image): oblique and nearly parallel edges, large coordinates
+    {
+        let step = run.ctx.pick(6, 2);
+        let sub: Vec<&Shape> = shapes.iter().step_by(step).collect();
+        let ns = sub.len();
+        for f in &imaps() {
+            let img: Vec<Shape> = sub.iter().map(|s| map_shape(s, f)).collect();
+            run.stage(&format!("pairs-affine-image {}", f.name), ns * ns, |idx, acc| {
+                check_pair(acc, idx, &img[idx / ns], &img[idx % ns], "[affine image] ");
+            });
+        }
+    }
     if !run.ctx.quick() {
         let g4 = families(&super::c01::cfg_g4());
         let n4 = g4.len();
